@@ -71,6 +71,7 @@ type caseOut struct {
 	Snap    int        `json:"snap"`
 	Ring    int        `json:"ring"` // 0 fresh buffers; n > 0: accepted frames are delivered through a ring of n reused slots
 	CompErr string     `json:"comperr,omitempty"`
+	Spec    string     `json:"spec,omitempty"` // edge stage: the -p text the port ranges were parsed from
 	Frames  []frameObs `json:"frames"`
 }
 
@@ -232,6 +233,7 @@ func main() {
 	wfile := flag.String("wiring", "", "JSON file with the translated wirings")
 	replay := flag.String("replay", "", "replay cases from a JSON file")
 	burst := flag.Int("burst", 0, "burst stage: number of reply frames processed while the consumer of the results is stalled")
+	edges := flag.Bool("edges", false, "edge stage: port specifications and source ports at the ends of the port space")
 	dump := flag.String("dump", "", "dump the compiled program of a filter expression")
 	rawf := flag.Bool("raw", false, "with -dump: raw IPv4 link type")
 	flag.Parse()
@@ -256,6 +258,10 @@ func main() {
 	defer w.Close()
 	if *burst > 0 {
 		burstStage(w, ws, *burst)
+		return
+	}
+	if *edges {
+		edgeStage(w, ws, *seed, *per)
 		return
 	}
 	if *replay != "" {
